@@ -1,5 +1,6 @@
 import Zlink.Proofs.RxOracle
 import Zlink.Proofs.RxWake
+import Zlink.Proofs.RxWakeRun
 /-! # C07 — Receiving is cancel-safe
 
 Model: poll-level `Rx` (`Zlink/Model/Rx.lean`). An event list is an interleaving of byte arrivals,
@@ -76,6 +77,17 @@ theorem C07_parked_poll_is_noop (C : Consts) (sizes : Nat → Nat) (s : St) (e :
     · simp only [List.replicate_succ, List.foldl_cons, step, hfix]
       exact ih.2
 
+/-- **Under a wake-driven executor nothing is lost.** For every list of `rx` tokens - arrivals, close, polls of fresh
+    receives (`p`), polls of the retained receive (`q`) and wake-driven polls (`w`: only if the receive's waker has fired
+    since it was last polled) - the outcomes that are not `pending` are the same, in the same order, as when every `w`
+    is an unconditional poll: the polls a real executor does not make are polls of a parked receive. (`resolveW` is what
+    the driver runs for the harness's `W` cases; with `C07_safe` / `C07_complete` about the eager run, every message the
+    peer sent is returned exactly once, in order, under a wake-driven executor too.) -/
+theorem C07_wake_driven (C : Consts) (sizes : Nat → Nat) (ts : List DriverRx.RTok) :
+    (run C sizes (DriverRx.resolveW C sizes ts (init C) net0 true false false) (init C) net0).filter (· != Out.pending) =
+    (run C sizes (DriverRx.eagerW ts) (init C) net0).filter (· != Out.pending) :=
+  DriverRx.resolveW_spec C sizes ts (init C) net0 true false false (DriverRx.winv_init C sizes _ _)
+
 /-! ## Non-vacuity -/
 namespace Example
 def frames : List (List Byte) := [[123, 125], [91, 49, 93]]
@@ -88,5 +100,9 @@ example : run C (fun _ => 100) evs (init C) net0 =
     [.pending, .pending, .frame [123, 125], .frame [91, 49, 93], .err .eof] := by decide
 /-- the premise of `C07_parked_poll_is_noop` is met after the first arrival: `{` alone is no frame, the poll is pending -/
 example : (poll C (fun _ => 100) (init C) { net0 with avail := [123] }).1 = .pending := by decide
+/-- a wake-driven run that skips polls: after the pending first poll the second `w` is skipped (nothing has arrived),
+    the arrival fires the waker, the third `w` polls -/
+example : (DriverRx.resolveW C (fun _ => 100) [.arrive [123], .w, .w, .arrive [125, 0], .w] (init C) net0 true false false).map
+      (fun ev => match ev with | .poll => 1 | .arrive _ => 2 | .close => 3) = [2, 1, 2, 1] := by decide
 end Example
 end C07
